@@ -287,7 +287,7 @@ def materialise(proj, root):
             else:
                 with open(os.path.join(sdir, name), "w") as f:
                     f.write(text)
-    return os.path.join(root, "proj"), sdir
+    return os.path.join(root, proj.get("root", "proj")), sdir
 
 
 # =====================================================================================================
@@ -337,16 +337,21 @@ def run_lian(proj, inp, sdir, cwd, wsrel, seed, harvest=None, extra_env=None, ti
 # snapshots and comparison
 # =====================================================================================================
 
+def ws_rel_root(wsrel):
+    """Lian.set_workspace_dir: `lian_workspace` is appended unless that string already occurs in the path"""
+    return wsrel if WSNAME in wsrel else os.path.join(wsrel, WSNAME)
+
+
 def ws_root(ws):
     cwd, wsrel = ws
-    return os.path.join(cwd, wsrel, WSNAME)
+    return os.path.join(cwd, ws_rel_root(wsrel))
 
 
 def ws_tokens(ws):
     """the byte strings that stand for 'this workspace' inside output files: the absolute path, and the
     relative form the run was given."""
     cwd, wsrel = ws
-    return [os.path.join(cwd, wsrel, WSNAME), os.path.join(wsrel, WSNAME)]
+    return [os.path.join(cwd, ws_rel_root(wsrel)), ws_rel_root(wsrel)]
 
 
 def list_files(ws):
@@ -471,6 +476,10 @@ def gen_php(rng, nf=3):
         L.append(f"function load{i}($c, $d = {i}, $e = {i + 1}) {{")
         L.append(f'  $n = $c ? "{a}.php" : ($c > 1 ? "{b}.php" : "{c}.php");')
         L.append("  $q = require $n;")
+        # what the PHP text preprocessors look at: comment markers and namespace-like text inside strings, % and $
+        L.append('  $u = "http://host/%s?a=$c" . \'/* kept */ 100%d // kept\';')
+        L.append("  $m = $d%3 + $e % 2; // a real comment with % and $x")
+        L.append("  /* block comment: key%size */")
         L.append("  return $q;")
         L.append("}")
     for i in range(nf):
@@ -500,6 +509,193 @@ def gen_ts(rng, nf=3):
 
 
 GENS["ts"] = gen_ts
+
+
+# =====================================================================================================
+# path-like string constants of lian's own source: what its path tests look at
+# =====================================================================================================
+
+_PATHY = re.compile(r"^[A-Za-z0-9_.\-/]{2,40}$")
+_STR_TESTS = {"startswith", "endswith", "find", "rfind", "index", "rindex", "split", "rsplit", "replace", "count",
+              "removeprefix", "removesuffix", "partition", "rpartition", "strip", "lstrip", "rstrip"}
+_PATHISH_EXPR = re.compile(r"path|file|dir|workspace|folder|unit|src|dst|root", re.I)
+_LAYOUT_FILES = ("preparation.py", "config/config.py", "lang/lang_analysis.py", "main.py", "taint/taint_analysis.py",
+                 "incremental/unit_level_incremental_checker.py", "externs/extern_system.py")
+
+
+def harvest_path_constants(src_root=None):
+    """ast-walk $LIAN_REPO/src/lian and collect the string constants that take part in
+    (1) `in` / `not in` tests and str-method tests (startswith, endswith, find, split, replace …) whose other
+        operand looks like a path (its source text mentions path/file/dir/workspace/unit/src/dst/root),
+    (2) os.path.join calls in the modules that lay out the workspace,
+    (3) any other os.path.join call,   (4) any other such test.
+    f-strings and `config.X` attributes are resolved through the literal assignments of config/config.py.
+    Returns {rank: sorted list of constants}.  Nothing is imported or executed."""
+    import ast
+    src_root = src_root or os.path.join(common.REPO, "src", "lian")
+    cfg = {}
+    try:
+        for st in ast.parse(open(os.path.join(src_root, "config", "config.py"), encoding="utf-8").read()).body:
+            if isinstance(st, ast.Assign) and len(st.targets) == 1 and isinstance(st.targets[0], ast.Name) \
+                    and isinstance(st.value, ast.Constant) and isinstance(st.value.value, str):
+                cfg[st.targets[0].id] = st.value.value
+    except (OSError, SyntaxError):
+        pass
+
+    def consts(node):
+        out = []
+        for n in ast.walk(node):
+            if isinstance(n, ast.Constant) and isinstance(n.value, str):
+                out.append(n.value)
+            elif isinstance(n, ast.JoinedStr):
+                parts, ok = [], True
+                for v in n.values:
+                    if isinstance(v, ast.Constant):
+                        parts.append(str(v.value))
+                    elif isinstance(v, ast.FormattedValue) and isinstance(v.value, ast.Attribute) and v.value.attr in cfg:
+                        parts.append(cfg[v.value.attr])
+                    elif isinstance(v, ast.FormattedValue) and isinstance(v.value, ast.Name) and v.value.id in cfg:
+                        parts.append(cfg[v.value.id])
+                    else:
+                        ok = False
+                if ok:
+                    out.append("".join(parts))
+            elif isinstance(n, ast.Attribute) and n.attr in cfg:
+                out.append(cfg[n.attr])
+            elif isinstance(n, ast.Name) and n.id in cfg and n.id.isupper():
+                out.append(cfg[n.id])
+        return out
+
+    ranks = {1: set(), 2: set(), 3: set(), 4: set()}
+    for r, _, fs in os.walk(src_root):
+        for f in sorted(fs):
+            if not f.endswith(".py"):
+                continue
+            path = os.path.join(r, f)
+            rel = os.path.relpath(path, src_root)
+            try:
+                tree = ast.parse(open(path, encoding="utf-8").read())
+            except (OSError, SyntaxError, UnicodeDecodeError):
+                continue
+            for n in ast.walk(tree):
+                if isinstance(n, ast.Compare) and any(isinstance(o, (ast.In, ast.NotIn)) for o in n.ops):
+                    other = " ".join(ast.unparse(c) for c in n.comparators)
+                    for c in consts(n.left):
+                        ranks[1 if _PATHISH_EXPR.search(other) else 4].add(c)
+                elif isinstance(n, ast.Call) and isinstance(n.func, ast.Attribute):
+                    if n.func.attr in _STR_TESTS and n.args:
+                        recv = ast.unparse(n.func.value)
+                        for c in consts(n.args[0]):
+                            ranks[1 if _PATHISH_EXPR.search(recv) else 4].add(c)
+                    elif n.func.attr == "join" and isinstance(n.func.value, ast.Attribute) and n.func.value.attr == "path":
+                        for a in n.args:
+                            for c in consts(a):
+                                ranks[2 if rel in _LAYOUT_FILES else 3].add(c)
+    out, seen = {}, set()
+    for k in (1, 2, 3, 4):
+        out[k] = sorted(c for c in ranks[k] if _PATHY.match(c) and c not in seen)
+        seen |= set(out[k])
+    return out
+
+
+def components_of(consts):
+    """constants -> directory-name components, keeping the adjacency of compound constants ('a/b' -> a, b);
+    '.ext' -> 'n.ext', '_suffix' -> 'n_suffix'"""
+    comps = []
+    for c in consts:
+        for part in c.split("/"):
+            if not part or part in (".", "..") or not re.match(r"^[A-Za-z0-9_.\-]+$", part):
+                continue
+            if part[0] in "._-":
+                part = "n" + part
+            if not comps or comps[-1] != part:
+                comps.append(part)
+    return comps
+
+
+def location_variants(pc, rng, n_random):
+    """workspace locations (relative to the run directory) built from the harvested constants.  One path holds
+    many constants as separate components, so one lian process covers them all."""
+    tested = components_of(pc[1])
+    layout = components_of(pc[2])
+    rest = components_of(pc[3] + pc[4])
+    locs = {}
+    plain = [c for c in tested if WSNAME not in c]
+    if plain:
+        locs["loc_tested"] = "/".join(plain + ["w"])
+    if tested != plain:
+        locs["loc_tested_ws"] = "/".join(tested + ["w"])            # contains `lian_workspace`: lian then uses the path as it is
+    if layout:
+        locs["loc_layout"] = "/".join([c for c in layout if WSNAME not in c][:16] + ["w"])
+    for k in range(n_random):
+        pool = [c for c in rest + layout + plain if WSNAME not in c]
+        if pool:
+            locs["loc_rand%d" % k] = "/".join(rng.sample(pool, min(10, len(pool))) + ["w"])
+    return locs
+
+
+TRICKY_LINES = [
+    'slot = key%size',
+    'label = "slot-%d"%slot',
+    'pct = "100%s" % label',
+    'msg = "%s:%s"%(key, size)',
+    'ratio = size%3 + key%2',
+    'note = "see os.path docs and xml.dom.minidom too"',
+    'cost = "$" + str(size) + " US$ ${HOME} $1"',
+    "quote = 'it''s' + \"say \\\"hi\\\"\" + '\\'q\\''",
+    'tri = """a "quoted" \'word\' and a % sign"""',
+    'uni = "naïve café ✓ 漢字 Ω"',
+    'esc = "tab\\there\\\\n back\\\\slash"',
+    'hsh = "not # a comment"  # a comment with % and $',
+    'mock = "key_1_size %vv1 %unit_init %this"',
+    'fmt = f"{key}%{size} {label!r:>10}"',
+    'pth = "lian_workspace/externs/src/frontend" + "/" + label',
+    'dot = os.path.join("a.b", "c.d")',
+    'raw = r"C:\\\\dir\\\\%s.py" % key',
+    'bts = b"%d bytes" % size',
+    'neg = -key%-size',
+    'dct = {"k%s" % key: "v$%s" % size}',
+]
+
+
+def gen_text(rng, nfun=3):
+    """python sources with the character classes lian's text preprocessors look at: `%` between identifiers and
+    strings, dotted module names inside string literals after `import a.b`, `$`, quotes, escapes, non-ASCII."""
+    L = ["import os.path", "import xml.dom.minidom", "from os import path as p", ""]
+    for i in range(nfun):
+        L.append(f"def fn{i}(key, size=3, label=\"x%s\"):")
+        L.append("    slot = 0")
+        for line in rng.sample(TRICKY_LINES, rng.randint(7, 12)):
+            L.append("    " + line)
+        L.append("    return slot")
+        L.append("")
+    L.append("def main():")
+    for i in range(nfun):
+        L.append(f"    r{i} = fn{i}({i + 5}, size={i + 2})")
+    L.append("    return r0")
+    L.append("")
+    L.append("main()")
+    return {"kind": "text", "lang": "python", "files": {"proj/txt.py": "\n".join(L) + "\n"},
+            "settings": dict(SMALL_SETTINGS), "cmd": "semantic", "quiet": True}
+
+
+GENS["text"] = gen_text
+
+
+def gen_names(rng, pc, nfiles=6):
+    """a project whose INPUT directory, sub-directories and file names are drawn from the harvested constants
+    (the contents are the `text` sources); the same project is used for every variation."""
+    comps = [c for c in components_of(pc[1] + pc[2] + pc[3]) if WSNAME not in c]
+    rng.shuffle(comps)
+    root = comps[0] if comps else "proj"
+    files = {}
+    body = gen_text(rng, 2)["files"]["proj/txt.py"]
+    for k in range(min(nfiles, max(1, len(comps) // 2))):
+        d, f = comps[(2 * k + 1) % len(comps)], comps[(2 * k + 2) % len(comps)]
+        files[f"{root}/{d}/{f}.py"] = body if k == 0 else gen_text(rng, 1)["files"]["proj/txt.py"]
+    files[f"{root}/main.py"] = "import os.path\n\ndef main():\n    s = \"%s/%s\" % (\"a\", \"b\")\n    return s\n\nmain()\n"
+    return {"kind": "names", "lang": "python", "files": files, "root": root,
+            "settings": dict(SMALL_SETTINGS), "cmd": "semantic", "quiet": True}
 
 
 # =====================================================================================================
@@ -537,6 +733,9 @@ def tie_requests(h):
     for r in h.get("require", []):
         out.append(("require", {"m": "determinism", "site": "require", "variant": "current", "states": r["states"]},
                     r["real"], {"stmt_id": r["stmt_id"]}))
+    for r in h.get("mock_unit", []):
+        out.append(("mock_unit", {"m": "determinism", "site": "mock_unit", "variant": "current",
+                                  "is_extern": r["is_extern"], "unit_path": r["unit_path"]}, r["real"], {"unit": r["unit_path"]}))
     for r in h.get("array_types", []):
         out.append(("array_types", {"m": "determinism", "site": "array_types", "variant": "current",
                                     "element_types": r["element_types"]}, r["real"], {}))
@@ -829,11 +1028,16 @@ def _run(ctx, proofs_ok, quick, scratch):
     projects = []                                  # (name, project, role)
     for w in corpus:
         projects.append(("wit_" + w["name"], w["project"], "witness"))
-    counts = ({"defaults": 2, "classes": 1, "imports": 1, "taint": 1, "php": 1, "ts": 1} if quick else
-              {"defaults": 6, "classes": 6, "imports": 5, "taint": 5, "php": 2, "ts": 2})
+    counts = ({"defaults": 2, "classes": 1, "imports": 1, "taint": 1, "php": 1, "ts": 1, "text": 1} if quick else
+              {"defaults": 6, "classes": 6, "imports": 5, "taint": 5, "php": 2, "ts": 2, "text": 3})
     for kind, cnt in counts.items():
         for k in range(cnt):
             projects.append((f"gen_{kind}_{k}", GENS[kind](random.Random(rng.getrandbits(64))), "generated"))
+    # path-like constants of lian's own source, harvested now: they name workspace locations and input files
+    pc = harvest_path_constants()
+    for k in range(1 if quick else 2):
+        projects.append((f"gen_names_{k}", gen_names(random.Random(rng.getrandbits(64)), pc), "generated"))
+    locs = location_variants(pc, random.Random(rng.getrandbits(64)), 1 if quick else 3)
     cidx = [3, 6, 9] if quick else list(range(len(CORPUS)))
     for i in cidx:
         p = corpus_project(i)
@@ -848,7 +1052,9 @@ def _run(ctx, proofs_ok, quick, scratch):
     jobs = []
     unrelated = prepared[0]                         # a tiny project analysed into a sibling workspace first
     full_var = set()
-    wit_seeds = {"wit_" + w["name"]: [x for x in w["seeds_that_differ_on_pinned"] if x != "0"] for w in corpus}
+    located = set()
+    wit_seeds = {"wit_" + w["name"]: [x for x in w.get("seeds_that_differ_on_pinned", []) if x != "0"] for w in corpus}
+    wit_locs = {"wit_" + w["name"]: [x for x in w.get("locations_that_differ_on_pinned", []) if x != "w"] for w in corpus}
     for k, P in enumerate(prepared):
         r = role[P["name"]]
         hv = r != "repo-tests" or not quick
@@ -872,6 +1078,21 @@ def _run(ctx, proofs_ok, quick, scratch):
         elif P["name"] == "gen_taint_0":
             jobs.append(R.job(P, "twice", "0", repeat=2))
             jobs.append(R.job(P, "sibling", "1", pre=other))
+        for n, loc in enumerate(wit_locs.get(P["name"], [])):
+            jobs.append(R.job(P, "witloc%d" % n, "0", wsrel=loc, harvest=True))
+        # workspace locations whose directory names are the strings lian's own path tests look for
+        if P["name"].startswith(("gen_text_", "gen_names_")) and (not quick or P["name"].endswith("_0")):
+            mine_locs = list(locs.items()) if P["name"].startswith("gen_text_") else \
+                [(k, v) for k, v in locs.items() if k in ("loc_layout", "loc_tested_ws")]
+            if quick and P["name"].startswith("gen_text_"):
+                jobs.append(R.job(P, "longws", "0", wsrel=LONG_WS))
+        elif not quick and r != "repo-tests":
+            mine_locs = [(k, v) for k, v in locs.items() if k in ("loc_layout", "loc_tested_ws", "loc_rand0")]
+        else:
+            mine_locs = []
+        for label, wsrel in mine_locs:
+            located.add(P["name"])
+            jobs.append(R.job(P, label, "0", wsrel=wsrel))
     # SameUnitOrder experiment: one run with the directory listing reversed (simulated other file system)
     multi = [P for P in prepared if len(P["proj"]["files"]) >= 3]
     scan_jobs = [R.job(P, "revscan", "0", harvest=True, extra_env={"C14_SCANDIR": "reverse"}) for P in multi[:1]]
@@ -880,8 +1101,10 @@ def _run(ctx, proofs_ok, quick, scratch):
     pinned_jobs = []
     if pinned_root:
         for w, P in zip(corpus, prepared[:len(corpus)]):
-            for s in w["seeds_that_differ_on_pinned"]:
+            for s in w.get("seeds_that_differ_on_pinned", []):
                 pinned_jobs.append(R.job(P, "pinned_s" + s, s, harvest=True, repo=pinned_root))
+            for n, loc in enumerate(w.get("locations_that_differ_on_pinned", [])):
+                pinned_jobs.append(R.job(P, "pinned_loc%d" % n, "0", wsrel=loc, harvest=True, repo=pinned_root))
     t0 = time.time()
     done = R.execute(jobs + scan_jobs + pinned_jobs)
     t_exec = time.time() - t0
@@ -891,6 +1114,13 @@ def _run(ctx, proofs_ok, quick, scratch):
     for j in jobs + scan_jobs + pinned_jobs:
         if any(r["rc"] == -9 for r in j["res"]):
             raise RuntimeError("lian process timed out (machine overloaded?): " + j["P"]["name"] + " " + j["label"])
+
+    # a witness or generated project whose base run produced no GIR says nothing (e.g. a scratch path that lian
+    # refuses): that is a harness problem, not a verdict
+    for j in jobs:
+        if j["label"] == "s0" and role[j["P"]["name"]] != "repo-tests" and \
+                not os.path.exists(os.path.join(ws_root(j["ws"]), "frontend", "gir.bundle0")):
+            raise RuntimeError("base run produced no GIR: " + j["P"]["name"] + " | " + j["res"][-1]["tail"][-300:])
 
     # ---------------- monitor
     by = {}
@@ -995,6 +1225,10 @@ def _run(ctx, proofs_ok, quick, scratch):
             for r in h.get("array_types", []):
                 preqs.append({"m": "determinism", "site": "array_types", "variant": "pinned", "type_set_iter": r["type_set_iter"]})
                 pmeta.append((j, "array_types", r["real"]))
+            for r in h.get("mock_unit", []):
+                preqs.append({"m": "determinism", "site": "mock_unit", "variant": "pinned", "unit_path": r["unit_path"],
+                              "marker": consts.get("mock_marker", "lian_workspace/externs")})
+                pmeta.append((j, "mock_unit", r["real"]))
         if preqs:
             for (j, site, real), req, rep in zip(pmeta, preqs, drv_batch(preqs)):
                 if rep.get("ok") != real:
@@ -1005,6 +1239,7 @@ def _run(ctx, proofs_ok, quick, scratch):
             if len(js) >= 2:
                 diffs, _, _ = compare_jobs(js[0], js[1])
                 pinned_info["witnesses"].append({"name": w["name"], "seeds": [js[0]["seed"], js[1]["seed"]],
+                                                 "workspaces": [js[0]["wsrel"], js[1]["wsrel"]],
                                                  "differs_on_pinned_code": bool(diffs),
                                                  "files": sorted({d["file"] for d in diffs})})
         pinned_info["frozen_model_records_compared"] = len(preqs)
@@ -1016,11 +1251,16 @@ def _run(ctx, proofs_ok, quick, scratch):
     ctx.cov["rule"] = (
         f"{len(prepared)} projects ({sum(1 for r in role.values() if r == 'witness')} corpus witnesses, "
         f"{sum(1 for r in role.values() if r == 'generated')} generated from VERIF_SEED: defaults/keyword args, classes/inheritance, "
-        f"imports across files, taint flows with a custom settings dir, PHP require, TypeScript array literals; "
+        f"imports across files, taint flows with a custom settings dir, PHP require, TypeScript array literals, preprocessor-relevant text, harvested file names; "
         f"{sum(1 for r in role.values() if r == 'repo-tests')} from $LIAN_REPO/tests in python/javascript/java), each analysed by lian in separate "
         f"processes: base PYTHONHASHSEED=0, then seeds {seeds}{' (witnesses: the seed that exposed the defect at the pinned commit; repo tests: the first only)' if quick else ' and PYTHONHASHSEED=random'}; "
         f"for {len(full_var)} projects also twice in a row into one workspace, from a workspace with a longer path, and after an unrelated project "
-        "was analysed into a sibling workspace (quick: the taint project also twice in a row and after an unrelated project). "
+        "was analysed into a sibling workspace (quick: the taint project also twice in a row and after an unrelated project); "
+        f"for {len(located)} projects also from workspace locations whose directory names are path-like string constants harvested by an "
+        "ast walk of $LIAN_REPO/src/lian (operands of in/startswith/endswith/find/split/replace tests and of os.path.join; one location "
+        "holds many constants as components). The `text` and `names` projects contain % formatting between identifiers and strings, "
+        "dotted module names inside string literals after `import a.b`, $, quotes, escapes, non-ASCII text, and input directory/file "
+        "names drawn from the same constants. "
         "Every other run is compared with the base run over all files under frontend/ semantic_p1/ semantic_p2/ semantic_p3/ taint/ "
         "(bytes first; cell-wise via pandas on a byte difference). evaluations = lian processes started; a comparison counts as "
         "non-trivial (distinct_nontrivial) when it is a distinct (project, variation) pair whose base run produced a non-empty "
@@ -1034,7 +1274,9 @@ def _run(ctx, proofs_ok, quick, scratch):
     ctx.cov["pinned_replay"] = pinned_info
     ctx.cov["process_seconds"] = {"n": len(R.secs), "max": max(R.secs or [0]), "mean": round(sum(R.secs) / max(1, len(R.secs)), 1),
                                   "wall_of_parallel_phase": round(t_exec, 1)}
-    ctx.cov["uncovered"] = [site for site in ("map_args", "require", "array_types", "bundle_export", "call_path_rows",
+    ctx.cov["path_constants"] = {"harvested": {str(k): len(v) for k, v in pc.items()},
+                                 "tested_against_path_like_operands": pc[1], "workspace_locations": locs}
+    ctx.cov["uncovered"] = [site for site in ("map_args", "require", "array_types", "mock_unit", "bundle_export", "call_path_rows",
                                               "number_modules", "path_batch") if not tie["per_site"].get(site)]
     fp = {}
     for rel in ("core/stmt_states.py", "util/loader.py", "preparation.py", "lang/typescript_parser.py", "common_structs.py",
